@@ -320,7 +320,8 @@ def classify(pid, p, entry, src_out, impl_out, proghex):
         return "compile:strict21-opt-quoted-at"
     if d in ("classic", "cl21", "cl22") and has_at_literal(p["tree"], d == "classic"):
         return "compile:nonstrict-literal-64-is-env"
-    if d != "cl22" and rest_call_of_binding_inline(p["tree"]):
+    if (d != "cl22" or not feopt_on(entry)) and rest_call_of_binding_inline(p["tree"]):
+        # (under cl22 the same code path runs whenever the frontend optimiser is off: entry file:?0?)
         return "compile:inline-rest-binding-form"
     if classic_optimised(d, entry) and max_rest_run(p["tree"]) >= 15:
         return "compile:classic-opt-signed-path"
